@@ -57,8 +57,9 @@ def run_one(pid: str, tier: str) -> int:
     try:
         def _run(rep):
             mod.run(rep)
-            from rules import delegation
+            from rules import common, delegation
 
+            common.run(rep, pid)
             delegation.apply(rep, pid)
 
         code = core.run_check(pid, tier, _run, level=LEVELS.get(pid, "other"))
